@@ -457,4 +457,13 @@ def rule_binning_shared(ck):
     c02.rule_callsites(ck)
 
 
-RULES = [rule_mag_sentinel, rule_accumulation, rule_pairing, rule_axes, rule_spatial_rejection, rule_pure_gridding, rule_binning_shared, rule_region_attributes]
+def rule_filter_agrees(ck):
+    """the count of bin k equals the number of events kept by the equivalent range filter: the filter compares the stored column with
+    the threshold as the operator table says and converts the threshold with float() - not with a numpy scalar type, which forces
+    the comparison of a float32 column into double precision, where 4.1f < 4.1 (shared C04-D1)"""
+    from . import c04
+    ck.clause('D4 (shared C04-D1: the range filter the histogram is compared with)')
+    c04.rule_operators(ck)
+
+
+RULES = [rule_mag_sentinel, rule_accumulation, rule_pairing, rule_axes, rule_spatial_rejection, rule_pure_gridding, rule_binning_shared, rule_region_attributes, rule_filter_agrees]
